@@ -11,7 +11,8 @@ TextsOf(k) == IF k = 0 THEN {<<>>} ELSE {<<>>} \cup {<<t>> \o s : t \in Chars, s
 Init == text \in TextsOf(N) /\ ph = 0 /\ tab = <<>> /\ wtab = <<>>
 Next == ph = 0 /\ ph' = 1 /\ UNCHANGED text /\ tab' = PosTab(text) /\ wtab' = WalkTab(text)
 \* one line and one character beyond everything the text has
-Grid == {<<l, c>> : l \in 0..(Len(text) + 1), c \in 0..(2 * Len(text) + 1)}
+MaxCh == CHOOSE m \in 0..(2 * Len(text)) : (\E k \in 1..Len(tab) : tab[k][2] = m) /\ \A k \in 1..Len(tab) : tab[k][2] <= m
+Grid == {<<l, c>> : l \in 0..(tab[Len(tab)][1] + 1), c \in 0..(MaxCh + 1)}
 
 Theorems ==
   ph = 1 =>
